@@ -272,7 +272,12 @@ func runC09(t *testing.T, c WalCase) *kit.Result {
 				if typ != wal.OpTypeDelete {
 					size += 4 + len(val)
 				}
-				seq, err := w.Append(typ, key, val)
+				// the caller cut key and value out of one scratch buffer and reuses it afterwards
+				ck, cv := kit.SharedBuffer(key, val)
+				seq, err := w.Append(typ, ck, cv)
+				for j := range ck[:cap(ck)] {
+					ck[:cap(ck)][j] ^= 0x5a
+				}
 				if err != nil {
 					fail(&kit.Violation{Kind: "append-error", Signature: "append-error:" + op.K, Detail: fmt.Sprintf("op %d append(%s key %d bytes, value %d bytes): %v", i, op.K, len(key), len(val), err)})
 					break
@@ -298,7 +303,17 @@ func runC09(t *testing.T, c WalCase) *kit.Result {
 					}
 					total += 24 + s.KLen + s.VLen
 				}
-				seq, err := w.AppendBatch(ents)
+				given := make([]*wal.Entry, len(ents))
+				for j, e := range ents {
+					ck, cv := kit.SharedBuffer(e.Key, e.Value)
+					given[j] = &wal.Entry{Type: e.Type, Key: ck, Value: cv}
+				}
+				seq, err := w.AppendBatch(given)
+				for _, e := range given {
+					for j := range e.Key[:cap(e.Key)] {
+						e.Key[:cap(e.Key)][j] ^= 0x5a
+					}
+				}
 				if err != nil {
 					fail(&kit.Violation{Kind: "append-error", Signature: "append-error:batch", Detail: fmt.Sprintf("op %d AppendBatch(%d entries, ~%d bytes): %v", i, len(ents), total, err)})
 					break
